@@ -66,6 +66,7 @@ def run_project(srcdir: Path, files: dict, conf: dict | None = None, *, builder:
                         res["ok"] = False
                         res["error"] = f"resolving {docname}: {type(e).__name__}: {e}"
             res["stash"] = dict(getattr(app.env, "_verif_trees", {}))
+            res["data"] = getattr(app.env, "_verif_data", None)
             if want_html:
                 for docname in sorted(app.env.found_docs):
                     p = out / builder / (docname + ".html")
@@ -100,6 +101,28 @@ class _VerifStash(_T):
 
 def setup(app):
     app.add_transform(_VerifStash)
+"""
+
+
+# conf.py fragment: the global configuration object before every document is read, and at the end
+SNAP_CONFIG = """
+
+def _verif_snap(app):
+    c = app.env.myst_config
+    return {k: (sorted(v, key=repr) if isinstance(v, (set, frozenset)) else repr(v)) for k, v in c.as_dict().items()}
+
+
+def _verif_sr(app, docname, source):
+    app.env.__dict__.setdefault("_verif_data", []).append([docname, _verif_snap(app)])
+
+
+def _verif_eu(app, env):
+    env.__dict__.setdefault("_verif_data", []).append(["<end>", _verif_snap(app)])
+
+
+def setup(app):
+    app.connect("source-read", _verif_sr)
+    app.connect("env-updated", _verif_eu)
 """
 
 
